@@ -504,3 +504,45 @@ func (p *Prog) NamedType(pkg, name string) *types.Named {
 	nt, _ := o.Type().(*types.Named)
 	return nt
 }
+
+// DeclOfObj returns the declaration of a module function or method object.
+func (p *Prog) DeclOfObj(fn *types.Func) *FuncDecl {
+	if fn == nil {
+		return nil
+	}
+	for _, d := range p.AllDecls() {
+		if d.Decl.Name.Pos() == fn.Pos() {
+			return d
+		}
+	}
+	return nil
+}
+
+// DeclCluster returns fd and the module functions and methods its body names
+// (called, or handed on as function values), transitively up to depth, in a
+// stable order.
+func (p *Prog) DeclCluster(fd *FuncDecl, depth int) []*FuncDecl {
+	var out []*FuncDecl
+	seen := map[*FuncDecl]bool{}
+	var walk func(d *FuncDecl, k int)
+	walk = func(d *FuncDecl, k int) {
+		if d == nil || seen[d] || d.Decl.Body == nil {
+			return
+		}
+		seen[d] = true
+		out = append(out, d)
+		if k >= depth {
+			return
+		}
+		ast.Inspect(d.Decl.Body, func(n ast.Node) bool {
+			if id, ok := n.(*ast.Ident); ok {
+				if fo, ok := d.Pkg.TypesInfo.Uses[id].(*types.Func); ok && fo.Pkg() != nil && fo.Pkg() == d.Pkg.Types {
+					walk(p.DeclOfObj(fo), k+1)
+				}
+			}
+			return true
+		})
+	}
+	walk(fd, 0)
+	return out
+}
